@@ -4,6 +4,7 @@ import (
 	"fmt"
 	"go/token"
 	"go/types"
+	"strconv"
 	"strings"
 
 	"golang.org/x/tools/go/ssa"
@@ -50,6 +51,13 @@ func (c *fnCtx) call(in ssa.Instruction, cc *ssa.CallCommon, rt types.Type) *Val
 		c.havocAll()
 		return c.result(rt, "dyn")
 	}
+	return c.callStatic(in, callee, closure, cc, args, rt)
+}
+
+// callStatic: call of a statically known function (also used for devirtualised interface calls).
+func (c *fnCtx) callStatic(in ssa.Instruction, callee *ssa.Function, closure *ssa.MakeClosure, cc *ssa.CallCommon, args []*Val, rt types.Type) *Val {
+	pos := in.Pos()
+	_ = pos
 	name := callee.String()
 	if !(strings.HasSuffix(name, "ndian).PutUint16") || strings.HasSuffix(name, "ndian).PutUint32") || strings.HasSuffix(name, "ndian).PutUint64") || name == "io.ReadFull") {
 		if !(c.eng.isModule(callee) && callee.Blocks != nil && c.eng.contractOf(callee) == nil && c.canInline(callee)) {
@@ -83,6 +91,7 @@ func (c *fnCtx) call(in ssa.Instruction, cc *ssa.CallCommon, rt types.Type) *Val
 		c.havocSet(c.eng.fnMods(callee))
 		r := c.result(rt, "call")
 		c.eng.noteDerived(callee)
+		c.assumeAutoPost(callee, args, r, rt)
 		return r
 	}
 	// 4. other external
@@ -721,6 +730,30 @@ func (c *fnCtx) invoke(in ssa.Instruction, cc *ssa.CallCommon, args []*Val, rt t
 	if recv.K == KIface {
 		if !c.ifaceNonNil(cc.Value) {
 			c.addObl("nil", pos, "(not (= "+recv.T[0]+" 0))", "")
+		}
+	}
+	// devirtualisation: the dynamic type is a known constant (an interface made from a concrete value earlier
+	// on this path, typically after inlining a helper that takes the interface)
+	if recv.K == KIface {
+		if id, err := strconv.Atoi(recv.T[0]); err == nil && id > 0 {
+			c.eng.idMu.Lock()
+			dt := c.eng.typeByID[id]
+			c.eng.idMu.Unlock()
+			if dt != nil {
+				if sel := c.eng.prog.MethodSets.MethodSet(dt).Lookup(cc.Method.Pkg(), cc.Method.Name()); sel != nil {
+					if fn := c.eng.prog.MethodValue(sel); fn != nil && fn.Blocks != nil && c.eng.isModule(fn) && len(fn.Params) == len(args)+1 {
+						var rv *Val
+						switch kindOf(dt) {
+						case KPtr:
+							rv = &Val{K: KPtr, T: []string{recv.T[1]}}
+						}
+						if rv != nil {
+							cc2 := &ssa.CallCommon{Value: fn, Args: append([]ssa.Value{cc.Value}, cc.Args...)}
+							return c.callStatic(in, fn, nil, cc2, append([]*Val{rv}, args...), rt)
+						}
+					}
+				}
+			}
 		}
 	}
 	// interface contracts
